@@ -46,7 +46,12 @@ def _pred_cases(draw):
     else:
         w = draw(st.lists(st.floats(min_value=1e-3, max_value=1e6), min_size=n, max_size=n))
     order = draw(st.one_of(st.none(), st.permutations(list(range(len(cls))))))
-    return dict(kind=kind, classes=cls, lab=lab, pred=pred, wk=wk, w=w, order=order)
+    label_dtype = None
+    if draw(st.integers(0, 5)) == 0:
+        # consecutive 64-bit ids; the class list is signed, the label / prediction arrays unsigned
+        kind, cls = "int", [2**53 + 1 + j for j in range(len(cls))]
+        label_dtype = draw(st.sampled_from(["uint64", "int64"]))
+    return dict(kind=kind, classes=cls, lab=lab, pred=pred, wk=wk, w=w, order=order, label_dtype=label_dtype)
 
 
 def _np_classes(kind, vals):
@@ -74,6 +79,10 @@ def check_pred(case):
         kwargs = dict(classes=[cls[i] for i in order])
     labels_a = _np_classes(case["kind"], lab)
     pred_a = _np_classes(case["kind"], pred)
+    if case.get("label_dtype"):
+        labels_a, pred_a = np.asarray(lab, dtype=case["label_dtype"]), np.asarray(pred, dtype=case["label_dtype"])
+        if kwargs:
+            kwargs = dict(classes=np.asarray(kwargs["classes"], dtype=np.int64))
     try:
         cm = ConfusionMatrix(labels=labels_a, predictions=pred_a, weights=w, **kwargs)
     except ValueError:
@@ -251,7 +260,8 @@ def _ova_cases(draw):
         flat = [v * scale for v in flat]
     return dict(kind=kind, classes=cls, lead=list(lead), dtype=dtype, flat=flat, scale=scale,
                 perm=draw(st.permutations(list(range(K)))),
-                alpha=draw(st.floats(min_value=0.001, max_value=0.999)))
+                alpha=draw(st.floats(min_value=0.001, max_value=0.999)),
+                as_dict_kind=draw(st.sampled_from(["True", "True", "np.True_", "1"])))
 
 
 def _denominator(name, ova):
@@ -347,7 +357,10 @@ def check_ova(case):
                 ok = bool(np.all(np.abs(v[clear] - exp[clear]) <= 1e-9))
         require(ok, "pc:value", lambda: f"{name}: {v.tolist()} vs {exp.tolist()}")
         ax = -2 if is_ci else -1
-        dct = getattr(c, name)(as_dict=True, **kw)
+        # the flag as a literal, as the result of a NumPy comparison, as 1
+        flag = {"True": True, "np.True_": np.bool_(True), "1": 1}[case.get("as_dict_kind", "True")]
+        dct = getattr(c, name)(as_dict=flag, **kw)
+        require(isinstance(dct, dict), "pc:as-dict-keys", f"{name}(as_dict={flag!r}) returned {type(dct).__name__}")
         require(len(dct) == K, "pc:as-dict-keys", name)
         for j, k in enumerate(cls):
             require(k in dct and np.array_equal(np.asarray(dct[k]), np.take(v, j, axis=ax),
